@@ -1416,6 +1416,12 @@ func main() {
 		}
 	}
 
+	// -- retained outputs of the real compressors ------------------------------------------------------------------------------------------
+	if o.Only < 0 {
+		retainedCodecCheck(o, hlib.NewRng(o.Seed+4242))
+		retainedFrameCheck(o, hlib.NewRng(o.Seed+4243))
+	}
+
 	// -- live traffic: real Sessions against the scripted node -----------------------------------------------------------------------------
 	if o.Only < 0 {
 		protos := []int{4, 3}
